@@ -9,7 +9,10 @@ NOT_APPLICABLE = {
     "C03": "agreement of two complete execution routes on programs needs the byte-code loader, interpreter unit/closure machinery and the C runtime library executed symbolically from a whole unit; not encodable. The instruction-level content (each builtin means the same in fintEvalBCall and emitted C) is decided under C04.",
     "C06": "the accept/reject decision (tfSat/tiBottomUp/tiTopDown) operates on TForm/Syme/AbSyn graphs hung off global symbol tables built by ~30 kLOC; neither a symbolic program nor an arbitrary valid pre-state of those graphs can be constructed for the solver, and no leaf kernel of the decision is separable.",
     "C08": "2-safety over address-space layouts and collector schedules of a whole compilation; CBMC's memory model has no symbolic addresses, so address dependence is exactly what the solver cannot observe.",
-    "C09": "program output under forced collection schedules is a whole-process property (interpreter/runtime + conservative stack scanning via setjmp), not encodable; the allocator-level obligation it rests on is decided under C10.",
+    "C09": "program output under forced collection schedules is a whole-process property (interpreter/runtime + conservative stack scanning via setjmp), not encodable; the allocator-level arithmetic it rests on is the subject of the C10 slice.",
+    "C02": "observational equivalence across optimisation levels quantifies over whole programs; the separable rewriting kernel (peephole on expression trees, harness/c02_peep.c) was attempted and symbolic execution did not finish in 500 s (format-string-driven tree walkers and linear table searches with symbolic results in foam.c). The folding of builtin calls with constant operands -- the arithmetic content of the optimiser -- is decided under C04.",
+    "C14": "layout independence compares the parse trees of two renderings of a program: it needs the scanner, lineariser and the generated parser (axl.z, ~10 kLOC of table-driven code over heap token lists) run symbolically on two related symbolic texts; beyond reach. The lineariser's separator clean-up (linXSep) is decided for memory safety under C07.",
+    "C16": "the property is about generated C/Lisp compiling and linking with foreign code. The one separable kernel, identifier mangling (gc0ValidIdInBuf, harness/c16_names.c), was attempted: the SAT back end ran out of 10 GB in the array theory (127-entry translation tables indexed by symbolic characters, output written at symbolic positions); no verdict, so it is not claimed.",
     "C12": "the oracle is execution of generated Java on a JVM against foamj; no symbolic engine for Java (JBMC) in this image and genjava.c has no separable arithmetic kernel.",
     "C13": "session state spread over symbol tables, interpreter globals and the undo log across steps of the whole compiler; the only leaf (scanIsContinued) has no independent specification; its memory safety is covered under C07.",
 }
@@ -44,7 +47,7 @@ def main():
         "setup_cmd": "true",
         "hooks": {
             "guard": "ALDOR_VERIF",
-            "enable": "checks pass -DALDOR_VERIF -DALDOR_VERIF_<PARAM>=<value> to goto-cc/gcc for the units that need a shrunk parameter (bigint radix, store page size); the production build never defines it",
+            "enable": "checks pass -DALDOR_VERIF -DALDOR_VERIF_<PARAM>=<value> to goto-cc/gcc for the units that need a shrunk parameter (ALDOR_VERIF_BINT_LG_RADIX bigint digit size, ALDOR_VERIF_TBL_MAXLOAD hash table load factor, ALDOR_VERIF_STO_LG_PGSIZE store page size); the production build never defines it",
             "baseline_off_cmd": "make -C /repo/aldor -k check",
             "source_commits": HOOK_COMMITS,
             "add_only": True,
